@@ -3,4 +3,5 @@ CONSTANT Levels = 1
 INIT Init
 NEXT Next
 INVARIANT Inv
+INVARIANT InvF
 CHECK_DEADLOCK FALSE
